@@ -345,6 +345,31 @@ void h_mds3(void)
 	VERIF_CANARY();
 }
 
+/*
+ * raid_validate (raid/check.c), final syndrome test - mechanically extracted region: the candidate failure set is
+ * accepted iff EVERY spare parity (positions nr..nv-1 of the recomputed syndrome vector) is zero, i.e. one further
+ * corrupted block that shows up in ANY spare parity makes the candidate rejected. (The part of raid_validate that
+ * computes the syndromes reads the multiplication table through row pointers and is not under an obligation, DESIGN 2.3.)
+ */
+#ifdef VERIF_SYNDROME_REGION
+#include "region_validate_syndrome.c"
+void h_syndrome(void)
+{
+	uint8_t p[RAID_PARITY_MAX];
+	int k, r, anynz = 0;
+	VERIF_INPUTS();
+	VERIF_ASSUME(IN.nr >= 0 && IN.nr < IN.np && IN.np <= RAID_PARITY_MAX);
+	for (k = 0; k < RAID_PARITY_MAX; ++k) {
+		p[k] = IN.garbage[0][k];
+		if (k >= IN.nr && k < IN.np && p[k] != 0)
+			anynz = 1;
+	}
+	r = region_validate_syndrome(p, IN.nr, IN.np);
+	VERIF_ASSERT(r == (anynz ? -1 : 0), "raid_validate accepts iff every spare parity syndrome is zero");
+	VERIF_CANARY();
+}
+#endif
+
 /* ------------------------------------------------------------------ helper.c */
 void h_sort(void)
 {
